@@ -7,14 +7,16 @@ EXHAUSTIVE = True
 RULE = ('Stateless exploration of the REAL Controller/ComponentState/Engine/RepeatingEngine/monitor classes under a controlled '
         'scheduler. Scenario = workflow (chain2/3, pair, fan-in, diamond, cross-stage x2, restart from stage 1, same-stage observers, '
         'observer with two subjects in both listing orders, cross-stage observer, mixed observer, replicated+aggregating shapes, '
-        'late sibling, a real two-stage DoWhile) x exit script per component (success / shutdown-listed / unrecoverable / '
+        'late sibling, real DoWhile loops in three shapes, observers of same-named producers) x exit script per component (success / shutdown-listed / unrecoverable / '
         'restartable x1 x4 / failed submission x1 x6 / task-reported SubmissionFailed x1 x6; every single assignment and every pair '
         'over {shutdown-listed, unrecoverable, restartable}) + duration scenarios (long-running siblings, exits inside the 25 s '
         'stability wait, slowly draining stages). Every scenario runs on the canonical fair schedule; ALL schedules with <=1 '
         'deviation (a younger activity first, a task exiting early, a timer firing early) for chain2, pair, observer and one '
         'seed-rotated scenario (thorough: every single-fault scenario); all 1-deviation schedules at boundary actions for the '
         'two-fault race scenarios; line-level preemption points + stall deviation inside Controller.run / finishedCheck / '
-        'ComponentState.finish for the pair workflow (thorough: chain2 too); thorough: deviation bound 2 at boundary actions for chain2. '
+        'ComponentState.finish / postMortemCheck / _schedule / Engine.restart+kill (4 fixed + 2 seed-rotated of 45 combinations; thorough all); '
+        'operator pause/wake-up scenarios (Controller.sleep, wake_up) and memoization scenarios (fake component database: hit / fetch '
+        'fails); thorough: deviation bound 2 at boundary actions for chain2. '
         'Oracle at the end of every execution: the stage loop terminated within the virtual horizon, every component of the stages '
         'that ran is in a final state, and the final-state map / run() verdict / StageState.state agree with the reference model '
         'written from the documented rules (verif/vsched/ctl.py reference_outcome). distinct = distinct (scenario, choice prefix).')
